@@ -30,7 +30,14 @@ var Registry = map[string]func(*ev.Run){
 		}
 	},
 	"C02": RunRtPairs,
-	"C04": RunRtPairs,
+	"C04": func(r *ev.Run) {
+		RunRtPairs(r)
+		// sharing must also not leak through generated sub-methods that a sibling method with skipCopySameType reuses
+		c := RunWorkers(r, "c04nested", []string{pairTier(r)}, "")
+		r.Cov["shared_submethod_scenarios"] = c["evaluations"]
+		r.Cov["evaluations"] = r.Cov["evaluations"].(int) + c["calls"]
+		r.Cov["states"] = r.Cov["states"].(int) + c["cases_executed"]
+	},
 	"C18": RunRtPairs,
 	"C05": func(r *ev.Run) {
 		RunScenarioFamily(r, "c05", len(C05Scenarios(pairTier(r))), "struct pair In{A,B,Name}->Out{A,B,Name} under every source-struct variant x target variant x placement x every subset of <=k field-setting lines; generation outcome vs model verdict, accepted cases executed on all values within the deviation bound against the model plan")
@@ -46,6 +53,27 @@ var Registry = map[string]func(*ev.Run){
 	},
 	"C10": func(r *ev.Run) {
 		RunScenarioFamily(r, "c10", len(C10Scenarios(pairTier(r))), "update methods In{F,G} -> *Out{F,G,Keep(ignored)} for every field kind (basic, named basic, unnamed/named struct, pointer, slice, map, pointer-to-value, any/func/chan/array under skipCopySameType, non-comparable struct) x every subset of the ignoreZeroValueField categories x level (method, converter, CLI -g) x skipCopySameType x method-level 'no' override x signature variants (pointer source, argument order, error, context); executed for every source value within the deviation bound x every target pre-state; oracle: target after the call equals the pre-state with exactly the model-selected fields replaced, source unchanged")
+	},
+	"C11": func(r *ev.Run) {
+		// pointer-depth combinations (T,*T,**T on either side; top, field, element, map positions) with and without
+		// useZeroValueOnPointerInconsistency are part of the type-pair corpus; this run adds them to the default-constructor family
+		RunScenarioFamily(r, "c11", len(C11Scenarios(pairTier(r))), "(1) default FUNC menu (no parameter / source / context / error / pointer or value result / wrong result / source mismatch) x method shapes S->T, S->*T, *S->*T, *S->T x default:update at method/converter level/overridden x update:ignoreZeroValueField x method error result: generation outcome vs model, executed on all values in the deviation bound incl. nil sources: nil => exactly FUNC's result, ignored fields keep FUNC's recognisable values, default:update applies the source on top; (2) the pointer-mismatch pairs of the type-pair corpus (T->*U never nil; *T->U only with the flag, nil => zero value)")
+		c := RunWorkers(r, "rtpairs", []string{pairTier(r)}, "")
+		r.Cov["pair_corpus_calls"] = c["calls"]
+		r.Cov["evaluations"] = r.Cov["evaluations"].(int) + c["calls"]
+		r.Cov["states"] = r.Cov["states"].(int) + c["cases_executed"]
+		r.Cov["transitions"] = r.Cov["transitions"].(int) + c["calls"]
+	},
+	"C12": func(r *ev.Run) {
+		RunScenarioFamily(r, "c12", len(C12Scenarios(pairTier(r))), "complete table: every inheritable boolean setting x {absent, bare, yes, no} at CLI (-g), converter and method level (4^3 placements), with and without a sibling method carrying the opposite value; each setting has a probe declaration whose generation outcome or run-time behaviour is a total function of the value in effect (method > converter > CLI > default); enum:unknown over {absent,@ignore,@panic}^3; plus the misuse table (settings at wrong levels, unknown settings, malformed values) and the wrapErrors/wrapErrorsUsing conflict in every level combination, where the diagnostic must name the place the line was written")
+		n, err := RunC12Misuse(r)
+		if err != nil {
+			r.Harness = true
+			fmt.Fprintln(os.Stderr, "HARNESS-ERROR:", err)
+		}
+		r.Cov["misuse_and_conflict_cases"] = n
+		r.Cov["evaluations"] = r.Cov["evaluations"].(int) + n
+		r.Cov["states"] = r.Cov["states"].(int) + n
 	},
 	"C13": func(r *ev.Run) { RunPairs(r, pairTier(r)) },
 }
@@ -72,6 +100,13 @@ var Workers = map[string]func(w *pool.W, shard, n int, args []string) error{
 	},
 	"c10": func(w *pool.W, shard, n int, args []string) error {
 		return ScenarioWorker(w, shardOf(C10Scenarios(args[0]), shard, n), args[0], true)
+	},
+	"c11": func(w *pool.W, shard, n int, args []string) error {
+		return ScenarioWorker(w, shardOf(C11Scenarios(args[0]), shard, n), args[0], true)
+	},
+	"c12": func(w *pool.W, shard, n int, args []string) error { return C12Worker(w, shard, n, args[0]) },
+	"c04nested": func(w *pool.W, shard, n int, args []string) error {
+		return ScenarioWorker(w, shardOf(nestedScenarios(90000, "C04"), shard, n), args[0], true)
 	},
 	"pairs": func(w *pool.W, shard, n int, args []string) error { return PairWorker(w, shard, n, args[0]) },
 }
